@@ -41,7 +41,12 @@ import (
 	"time"
 
 	kit "github.com/keep-network/keep-core/internal/verifkit"
+	"github.com/keep-network/keep-core/pkg/internal/verifhook"
 )
+
+// c25HookPoint is the observation point in walletDispatcher.dispatch right
+// after the busy check and before the insertion into wd.actions.
+const c25HookPoint = "tbtc.dispatch.beforeInsert"
 
 const c25CreatedBy = "created by github.com/keep-network/keep-core/pkg/tbtc.(*walletDispatcher).dispatch"
 
@@ -441,55 +446,112 @@ func TestVerif_C25_Hazard(t *testing.T) {
 		t.Fatalf("dispatch goroutines alive before the test")
 	}
 	for _, cs := range cases {
-		wd := newWalletDispatcher()
-		mon := newC25Monitor()
-		args := cs.Get("args")
-		procs := args.Keys()
-		acts := map[string]*c25Action{}
-		results := map[string]chan error{}
-		started := map[string]bool{}
-		got := map[string]string{}
-		for _, p := range procs {
-			a := newC25Action(world, mon, args.Get(p).Get("c").Int(), args.Get(p).Get("w").Str(), args.Get(p).Get("t").Str())
-			// dispatch calls actionType() once for its logger and once more, after the map
-			// lookup, for the value it stores: park the caller at that second call
-			a.parkAtCall = 2
-			acts[p] = a
-			results[p] = make(chan error, 1)
-		}
-		start := func(p string) {
-			started[p] = true
-			go func() { results[p] <- wd.dispatch(acts[p]) }()
-		}
-		realized := true
-		overlap := false
-		inCS := 0
-		hash := kit.Hash(cs.Get("steps").X)
-		for _, s := range cs.Get("steps").List() {
-			p := s.Get("p").Str()
-			switch s.Get("a").Str() {
-			case "Check":
-				if inCS > 0 {
-					overlap = true
+		for _, via := range []string{"hook", "callback"} {
+			wd := newWalletDispatcher()
+			mon := newC25Monitor()
+			args := cs.Get("args")
+			procs := args.Keys()
+			acts := map[string]*c25Action{}
+			results := map[string]chan error{}
+			started := map[string]bool{}
+			got := map[string]string{}
+			// Two ways of holding a caller between the map lookup and the insertion:
+			//   hook      the observation point tbtc.dispatch.beforeInsert (verifhook) that sits
+			//             right after the busy check;
+			//   callback  the second action.actionType() call, which dispatch makes for the
+			//             value it stores (works without the hook).
+			gate := kit.NewGate()
+			ticket := map[string]int{}
+			if via == "hook" {
+				verifhook.Install(gate.Handler)
+			}
+			for _, p := range procs {
+				a := newC25Action(world, mon, args.Get(p).Get("c").Int(), args.Get(p).Get("w").Str(), args.Get(p).Get("t").Str())
+				if via == "callback" {
+					a.parkAtCall = 2
 				}
+				acts[p] = a
+				results[p] = make(chan error, 1)
+			}
+			start := func(p string) {
+				started[p] = true
+				go func() { results[p] <- wd.dispatch(acts[p]) }()
+			}
+			// startAndHold starts p's dispatch and waits until it is held between lookup and
+			// insertion ("held"), has returned ("done") or neither within the bound ("blocked")
+			startAndHold := func(p string) string {
+				if via == "callback" {
+					start(p)
+					select {
+					case <-acts[p].parked:
+						return "held"
+					case err := <-results[p]:
+						got[p] = c25Res(err)
+						return "done"
+					case <-time.After(park):
+						return "blocked"
+					}
+				}
+				before := gate.Arrived(c25HookPoint)
+				gate.Arm(c25HookPoint, 1)
 				start(p)
-				select {
-				case <-acts[p].parked:
-					inCS++
-				case err := <-results[p]:
-					got[p] = c25Res(err)
-				case <-time.After(park):
-					realized = false // blocked before the lookup: the mutex serializes the callers
+				deadline := time.Now().Add(park)
+				for {
+					if gate.Arrived(c25HookPoint) > before {
+						if !gate.WaitParked(c25HookPoint, len(ticket)+1, c25Long) {
+							t.Fatalf("a caller arrived at the hook but did not park")
+						}
+						ticket[p] = before + 1
+						return "held"
+					}
+					select {
+					case err := <-results[p]:
+						got[p] = c25Res(err)
+						gate.Disarm(c25HookPoint)
+						return "done"
+					default:
+					}
+					if time.Now().After(deadline) {
+						gate.Disarm(c25HookPoint)
+						return "blocked"
+					}
+					time.Sleep(100 * time.Microsecond)
 				}
-			case "Insert":
-				select {
-				case <-acts[p].parked:
-				default:
-					realized = false
-				}
-				if realized {
+			}
+			held := map[string]bool{}
+			letGo := func(p string) {
+				delete(held, p)
+				if via == "callback" {
 					close(acts[p].release)
-					inCS--
+					return
+				}
+				if !gate.ReleaseTicket(c25HookPoint, ticket[p]) {
+					t.Fatalf("caller %s is not parked at the hook", p)
+				}
+				delete(ticket, p)
+			}
+			realized := true
+			overlap := false
+			hash := kit.Hash(cs.Get("steps").X) + "/" + via
+			for _, s := range cs.Get("steps").List() {
+				p := s.Get("p").Str()
+				switch s.Get("a").Str() {
+				case "Check":
+					if len(held) > 0 {
+						overlap = true
+					}
+					switch startAndHold(p) {
+					case "held":
+						held[p] = true
+					case "blocked":
+						realized = false // blocked before the lookup: the mutex serializes the callers
+					}
+				case "Insert":
+					if !held[p] {
+						realized = false
+						break
+					}
+					letGo(p)
 					select {
 					case err := <-results[p]:
 						got[p] = c25Res(err)
@@ -497,80 +559,83 @@ func TestVerif_C25_Hazard(t *testing.T) {
 						t.Fatalf("dispatch did not return after its caller was released")
 					}
 				}
-			}
-			if !realized {
-				break
-			}
-		}
-		// let every call of the schedule complete
-		for _, p := range procs {
-			atomic.StoreInt32(&acts[p].parkAtCall, 0)
-			select {
-			case <-acts[p].release:
-			default:
-				close(acts[p].release)
-			}
-		}
-		for _, p := range procs {
-			if !started[p] {
-				start(p)
-			}
-			if _, ok := got[p]; !ok {
-				select {
-				case err := <-results[p]:
-					got[p] = c25Res(err)
-				case <-time.After(c25Long):
-					t.Fatalf("dispatch did not return")
+				if !realized {
+					break
 				}
 			}
-		}
-		// every accepted action starts executing (they all stay inside execute())
-		oks := map[string]int{}
-		nOk := 0
-		for _, p := range procs {
-			if got[p] == "ok" {
-				oks[acts[p].name]++
-				nOk++
+			// let every call of the schedule complete
+			gate.ReleaseAll()
+			for _, p := range procs {
+				atomic.StoreInt32(&acts[p].parkAtCall, 0)
+				select {
+				case <-acts[p].release:
+				default:
+					close(acts[p].release)
+				}
 			}
-		}
-		kit.Eventually(10*time.Second, func() bool { return mon.begunN() >= nOk })
-		key := ""
-		if overlap {
-			key = hash
-		}
-		rep.Eval(key, map[string]interface{}{"steps": cs.Get("steps").X, "realized": realized, "results": got})
-		if realized {
-			rep.Count("realized", 1)
+			for _, p := range procs {
+				if !started[p] {
+					start(p)
+				}
+				if _, ok := got[p]; !ok {
+					select {
+					case err := <-results[p]:
+						got[p] = c25Res(err)
+					case <-time.After(c25Long):
+						t.Fatalf("dispatch did not return")
+					}
+				}
+			}
+			// every accepted action starts executing (they all stay inside execute())
+			oks := map[string]int{}
+			nOk := 0
+			for _, p := range procs {
+				if got[p] == "ok" {
+					oks[acts[p].name]++
+					nOk++
+				}
+			}
+			kit.Eventually(10*time.Second, func() bool { return mon.begunN() >= nOk })
+			key := ""
 			if overlap {
-				rep.Count("realized_overlapping", 1)
+				key = hash
 			}
-		} else {
-			rep.Unrealized++
-		}
-		called := map[string]int{}
-		for _, p := range procs {
-			called[acts[p].name]++
-		}
-		for _, wn := range []string{"w1", "w2"} {
-			if called[wn] == 0 {
-				continue
+			rep.Eval(key, map[string]interface{}{"steps": cs.Get("steps").X, "via": via, "realized": realized, "results": got})
+			if realized {
+				rep.Count("realized", 1)
+				rep.Count("realized_via_"+via, 1)
+				if overlap {
+					rep.Count("realized_overlapping", 1)
+				}
+			} else {
+				rep.Unrealized++
 			}
-			if oks[wn] != 1 || mon.maxOf(wn) > 1 {
-				rep.Diverge("hazard:double-dispatch",
-					fmt.Sprintf("%d concurrent dispatches for wallet %s: %d were accepted and up to %d actions executed at the same time (contract: exactly one accepted, the others refused)",
-						called[wn], wn, oks[wn], mon.maxOf(wn)),
-					map[string]interface{}{"schedule": cs.X, "realized": realized}, 1, map[string]interface{}{"accepted": oks[wn], "maxExecuting": mon.maxOf(wn), "results": got})
+			called := map[string]int{}
+			for _, p := range procs {
+				called[acts[p].name]++
 			}
-		}
-		// end everything and check the map empties
-		for _, p := range procs {
-			acts[p].finish("ok")
-		}
-		if !c25WaitGoroutines(0, c25Long) {
-			t.Fatalf("dispatch goroutines did not exit")
-		}
-		if e := world.snapshot(wd, nil); !c25Same(e, map[string]string{}) {
-			rep.Diverge("hazard:stays-busy", "all actions ended and their goroutines are gone but wd.actions is not empty", cs.X, map[string]string{}, e)
+			for _, wn := range []string{"w1", "w2"} {
+				if called[wn] == 0 {
+					continue
+				}
+				if oks[wn] != 1 || mon.maxOf(wn) > 1 {
+					rep.Diverge("hazard:double-dispatch",
+						fmt.Sprintf("%d concurrent dispatches for wallet %s: %d were accepted and up to %d actions executed at the same time (contract: exactly one accepted, the others refused)",
+							called[wn], wn, oks[wn], mon.maxOf(wn)),
+						map[string]interface{}{"schedule": cs.X, "realized": realized, "heldAt": via}, 1, map[string]interface{}{"accepted": oks[wn], "maxExecuting": mon.maxOf(wn), "results": got})
+				}
+			}
+			// end everything and check the map empties
+			for _, p := range procs {
+				acts[p].finish("ok")
+			}
+			if !c25WaitGoroutines(0, c25Long) {
+				t.Fatalf("dispatch goroutines did not exit")
+			}
+			if e := world.snapshot(wd, nil); !c25Same(e, map[string]string{}) {
+				rep.Diverge("hazard:stays-busy", "all actions ended and their goroutines are gone but wd.actions is not empty", cs.X, map[string]string{}, e)
+			}
+			verifhook.Uninstall()
 		}
 	}
 }
